@@ -56,6 +56,11 @@ type ClientSession struct {
 
 	disposeOnce sync.Once
 	authInfo    AuthInfo
+
+	// connMu 保护conn和disposeFlag。
+	// conn是在异步的connect协程中创建的，而dispose可能在超时等情况下，在其他协程中先于conn的创建被调用
+	connMu      sync.Mutex
+	disposeFlag bool
 }
 
 type AuthInfo struct {
@@ -317,10 +322,20 @@ func (s *ClientSession) tcpConnect() error {
 		}
 	}
 
-	s.conn = connection.New(conn, func(option *connection.Option) {
+	c := connection.New(conn, func(option *connection.Option) {
 		option.ReadBufSize = s.option.ReadBufSize
 		option.WriteChanFullBehavior = connection.WriteChanFullBehaviorBlock
 	})
+
+	s.connMu.Lock()
+	if s.disposeFlag {
+		// session已经被dispose了（比如超时），此时再保存连接的话，就没有人关闭它了
+		s.connMu.Unlock()
+		_ = c.Close()
+		return base.ErrSessionNotStarted
+	}
+	s.conn = c
+	s.connMu.Unlock()
 	return nil
 }
 
@@ -695,11 +710,15 @@ func (s *ClientSession) dispose(err error) error {
 	var retErr error
 	s.disposeOnce.Do(func() {
 		Log.Infof("[%s] lifecycle dispose rtmp ClientSession. err=%+v", s.UniqueKey(), err)
-		if s.conn == nil {
+		s.connMu.Lock()
+		s.disposeFlag = true
+		conn := s.conn
+		s.connMu.Unlock()
+		if conn == nil {
 			retErr = base.ErrSessionNotStarted
 			return
 		}
-		retErr = s.conn.Close()
+		retErr = conn.Close()
 	})
 	return retErr
 }
